@@ -360,7 +360,7 @@ package meta
 
 //@ func RetentionPolicyInfo.Clone
 //@   ensures result != nil && fresh(result)
-//@   carries rpi -> result shared Subscriptions(aliased by the clone; mutated in place by DropSubscription: snapshot race not decided), DownSamplePolicyInfo(aliased by the clone: not decided)
+//@   carries rpi -> result
 //@   assigns nothing
 
 //@ func ContinuousQueryInfo.Clone
